@@ -427,8 +427,13 @@ func (w *World) evalConfirm(n *Node, cur *Snap, v *accountant.Vertex, op OpInfo)
 	case v.Transaction.Spice.Currency == 0 && v.Transaction.Spice.SupplementaryCurrency == 0:
 		ev.Exempt = "no-spice"
 		return ev
-	case cur.Trusted[v.SignerPublicAddress] || w.Trusted[v.SignerPublicAddress]:
+	case cur.Trusted[v.SignerPublicAddress]:
+		// trusted on this node now, i.e. when the vertex was validated (trust changes are operations of their own)
 		ev.Exempt = "trusted"
+		return ev
+	case w.Trusted[v.SignerPublicAddress] && op.Kind == "sync":
+		// loaded from a peer that validated it under its own trusted store (the store is not part of the sync)
+		ev.Exempt = "trusted-at-the-peer"
 		return ev
 	}
 	anc, complete := w.Hist.Ancestors(v.Hash)
